@@ -124,7 +124,7 @@ theorem completion_payload (fix : Bool) (h : List TOp) (t id : Nat) (err : Optio
     contrib fix h (t, .exit id err) k =
       (if (orErr err i.err).isSome then [(t, evBucket .error i.e.batch)] else [])
         ++ [(t, evBucket .rt (t - i.t0)), (t, evBucket .complete i.e.batch)] := by
-  simp [contrib, hi, hd, hk]
+  simp [contrib, contribI, Op.addr, hi, hd, hk]
 
 /-- **`Exit` is idempotent and late calls change nothing**: any sequence of `trace` / `exit` (with or without
 error, at any times) addressed to ids that are already finished leaves the whole model state — every node, every
